@@ -201,6 +201,36 @@ def source_grep():
     return hits
 
 
+LITERALS = os.path.join(VERIF, 'tools', 'src_literals.json')
+
+
+def read_literals():
+    return json.load(open(LITERALS))
+
+
+def pin_literals():
+    """(./check --relock) pin the float literals of every translated function, per property"""
+    import importlib
+    from harness import translate
+    out = {}
+    for fn in sorted(os.listdir(os.path.dirname(os.path.abspath(__file__)))):
+        if len(fn) == 6 and fn.startswith('c') and fn.endswith('.py'):
+            mod = importlib.import_module('harness.' + fn[:-3])
+            specs = getattr(mod, 'SRC_SPECS', None)
+            if specs:
+                pid = fn[:-3].upper()
+                r = translate.translate_file(repo_root(), specs, 'Taurex.Gen.Src' + pid,
+                                             os.path.join(LEAN, 'TaurexModel', 'Gen', 'Src%s.lean' % pid),
+                                             header=_tie_header(pid, specs))
+                out[pid] = {f['lean']: f.get('literal_params', []) for f in r['functions']}
+    json.dump(out, open(LITERALS, 'w'), indent=1, sort_keys=True)
+    return out
+
+
+def _tie_header(pid, specs):
+    return 'property %s; functions: %s' % (pid, ', '.join('%s:%s' % (sp['module'], sp['func']) for sp in specs))
+
+
 def repo_root():
     import taurex
     return os.path.dirname(os.path.dirname(os.path.abspath(taurex.__file__)))
@@ -217,9 +247,19 @@ def source_tie(pid, mod):
     root = repo_root()
     out = os.path.join(LEAN, 'TaurexModel', 'Gen', 'Src%s.lean' % pid)
     r = translate.translate_file(root, specs, 'Taurex.Gen.Src' + pid, out,
-                                 header='property %s; functions: %s' % (pid, ', '.join(
-                                     '%s:%s' % (sp['module'], sp['func']) for sp in specs)))
+                                 header=_tie_header(pid, specs))
     failures = ['source no longer translatable (%s)' % e for e in r['errors']]
+    # float literals of the source become parameters named after their value (c1em06 …); the tie theorems instantiate
+    # them (often positionally), so the set of literals of every translated function is pinned like the statements are
+    lit_now = {f['lean']: f.get('literal_params', []) for f in r['functions']}
+    lit_pin = (read_literals().get(pid) if os.path.exists(LITERALS) else None)
+    if lit_pin is None:
+        failures.append('no pinned literal table for %s in tools/src_literals.json (run ./check --relock)' % pid)
+    else:
+        for fn in sorted(set(lit_now) | set(lit_pin)):
+            if lit_now.get(fn, []) != lit_pin.get(fn, []) and fn in lit_now:
+                failures.append('float literals of %s changed in the source: pinned %s, now %s (the tie theorems instantiate '
+                                'literal parameters by the pinned values)' % (fn, lit_pin.get(fn, []), lit_now.get(fn, [])))
     ok, log = lake_build(['Props.%sSrc' % pid])
     if not ok:
         errs = [l.strip() for l in log.split('\n') if 'error' in l][:6]
